@@ -217,7 +217,8 @@ def refineBuckets (E : Env α) (c : FCtx α) : Nat → Node α → Int → HM α
       let actualSub := comb.map (fun i => n.data.actual.getD i default)
       if actualSub.all Ival.isSing then
         let cnt ← liftEx (n.noisyCount E c)
-        let id ← HM.newCell (nodeKey n) actualSub cnt
+        -- ghost owner: the columns of this sub-combination (the cell is a lower-dimensional bucket of the node)
+        let id ← HM.newCell (comb.map (fun i => n.data.comb.getD i 0), n.data.path) actualSub cnt
         return [id]
       else match sub with
         | none => return []
